@@ -4,12 +4,15 @@ import (
 	"bytes"
 	"encoding/json"
 	"fmt"
+	"math/big"
 	"strings"
 	"testing"
 
 	"github.com/dominant-strategies/go-quai/common"
 	"github.com/dominant-strategies/go-quai/core/rawdb"
 	"github.com/dominant-strategies/go-quai/core/types"
+	"github.com/dominant-strategies/go-quai/crypto"
+	"github.com/dominant-strategies/go-quai/params"
 	"github.com/dominant-strategies/go-quai/rlp"
 	"github.com/dominant-strategies/go-quai/trie"
 	"google.golang.org/protobuf/proto"
@@ -97,6 +100,7 @@ func TestC14_Storage(t *testing.T) {
 				}
 				addressTyping(c, "receipt.contract", got[i].ContractAddress, loc)
 			}
+			receiptsWithBody(c, g, t, loc)
 			for i := range got {
 				got[i].Type = rs[i].Type // not stored: DeriveFields restores it from the block's transactions
 			}
@@ -417,4 +421,76 @@ func jsonReceipt(c *ctx, g *gen.Tags, r *types.Receipt) {
 		c.fail("C14/receipt/json/accessors", "receipt JSON round trip differs: %s", d)
 	}
 	g.Add("receipt:json")
+}
+
+// receiptsWithBody: the full read path (rawdb.ReadReceipts = stored receipts + fields derived from
+// the block body). A block with 1-3 validly signed Quai transactions, at least one of them a
+// contract creation, is written with its receipts; what is read back must carry every stored
+// field unchanged - in particular the contract address the state processor recorded (which is
+// the ground, in-zone address, not necessarily the plain CREATE derivation) - and the derived
+// fields must describe the block's transactions.
+func receiptsWithBody(c *ctx, g *gen.Tags, t *rapid.T, loc common.Location) {
+	if len(loc) != 2 {
+		return // receipts exist on zone chains
+	}
+	chainID := big.NewInt(int64(rapid.SampledFrom([]int{1, 9, 1337, 15000}).Draw(t, "rb_chain")))
+	signer := types.NewSigner(chainID, loc)
+	n := rapid.IntRange(1, 3).Draw(t, "rb_ntx")
+	createAt := rapid.IntRange(0, n-1).Draw(t, "rb_create")
+	var txs types.Transactions
+	var rs types.Receipts
+	cum := uint64(0)
+	for i := 0; i < n; i++ {
+		inner := &types.QuaiTx{ChainID: chainID, Nonce: uint64(rapid.IntRange(0, 9).Draw(t, "rb_nonce")), GasPrice: big.NewInt(7), Gas: 100000, Value: big.NewInt(int64(i)),
+			Data: rapid.SliceOfN(rapid.Byte(), 0, 40).Draw(t, "rb_data")}
+		if i != createAt {
+			to := gen.Address(t, "rb_to", loc)
+			inner.To = &to
+		}
+		tx, err := types.SignTx(types.NewTx(inner), signer, gen.Key(gen.KeyIndex(t, "rb_key")))
+		if err != nil {
+			t.Fatalf("HARNESS: SignTx: %v", err)
+		}
+		txs = append(txs, tx)
+		cum += 21000 + uint64(i)
+		r := &types.Receipt{Type: types.QuaiTxType, Status: types.ReceiptStatusSuccessful, CumulativeGasUsed: cum, GasUsed: 21000 + uint64(i), TxHash: tx.Hash(), Logs: []*types.Log{}}
+		if i == createAt && rapid.IntRange(0, 2).Draw(t, "rb_stored") > 0 {
+			// the address the EVM deployed to (ground into the zone when the plain derivation is not)
+			zb := make([]byte, 20)
+			copy(zb, rapid.SliceOfN(rapid.Byte(), 20, 20).Draw(t, "rb_ca"))
+			zb[0], zb[1] = loc[0]<<4|loc[1], zb[1]&0x7f
+			r.ContractAddress = common.BytesToAddress(zb, loc)
+			g.Add("receipts_body:stored_contract_address")
+		}
+		r.Bloom = types.CreateBloom(types.Receipts{r})
+		rs = append(rs, r)
+	}
+	wo := gen.WorkObject(t, loc, gen.WoOpts{Regime: gen.AnyRegime, AuxPow: 0, NonZeroNumber: true}, nil)
+	wo.Body().SetTransactions(txs)
+	db := newDB(loc)
+	hash, number := wo.Hash(), wo.NumberU64(common.ZONE_CTX)
+	rawdb.WriteWorkObject(db, hash, wo, types.BlockObject, common.ZONE_CTX)
+	rawdb.WriteReceipts(db, hash, number, rs)
+	got := rawdb.ReadReceipts(db, hash, number, &params.ChainConfig{ChainID: chainID, Location: loc})
+	g.Add("receipts_body")
+	if got == nil || len(got) != len(rs) {
+		c.fail("C14/db/receipts-with-body/missing", "ReadReceipts returned %d receipts for a block written with %d", len(got), len(rs))
+		return
+	}
+	for i := range rs {
+		if got[i].Status != rs[i].Status || got[i].CumulativeGasUsed != rs[i].CumulativeGasUsed {
+			c.fail("C14/db/receipts-with-body/consensus-fields", "receipt %d: status/cumulative gas changed through the database", i)
+		}
+		if got[i].TxHash != txs[i].Hash() || got[i].BlockHash != hash || got[i].TransactionIndex != uint(i) {
+			c.fail("C14/db/receipts-with-body/derived-fields", "receipt %d: derived tx hash / block hash / index do not describe the block", i)
+		}
+		want := rs[i].ContractAddress
+		if i == createAt && want.Equal(common.Address{}) {
+			from, _ := types.Sender(signer, txs[i])
+			want = crypto.CreateAddress(from, txs[i].Nonce(), txs[i].Data(), loc) // nothing stored: derived from the transaction
+		}
+		if !bytes.Equal(got[i].ContractAddress.Bytes(), want.Bytes()) && !(want.Equal(common.Address{}) && got[i].ContractAddress.Equal(common.Address{})) {
+			c.fail("C14/db/receipts-with-body/contract-address", "receipt %d: contract address %x was stored, ReadReceipts returns %x", i, want.Bytes(), got[i].ContractAddress.Bytes())
+		}
+	}
 }
